@@ -360,6 +360,18 @@ class Tracer:
         for nm in ("erase_op", "replace_op", "replace_value_with_new_type", "inline_block", "insert_block", "insert_op",
                    "move_region_contents_to_new_regions", "inline_region"):
             targets.append((Rewriter, nm))
+        # compound public mutators: their inner core calls are intermediate states, only the outermost call is an event
+        from xdsl.builder import Builder
+        from xdsl.pattern_rewriter import PatternRewriter
+
+        for nm in ("insert", "erase", "erase_op", "replace_all_uses_with", "replace_uses_with_if", "replace_matched_op", "replace", "replace_op",
+                   "replace_value_with_new_type", "insert_block_argument", "erase_block_argument", "inline_block", "move_region_contents_to_new_regions",
+                   "inline_region", "insert_op"):
+            if nm in PatternRewriter.__dict__:
+                targets.append((PatternRewriter, nm))
+        for nm in ("insert", "insert_op", "create_block"):
+            if nm in Builder.__dict__:
+                targets.append((Builder, nm))
         for cls, nm in targets:
             raw = cls.__dict__[nm]
             is_static = isinstance(raw, staticmethod)
@@ -411,7 +423,7 @@ class Tracer:
 
             u = tracer.universe
             saved = None
-            if u is not None and tracer.depth == 0:
+            if u is not None:     # at every depth: compound public calls (PatternRewriter, Builder) erase through the core mutators
                 saved = (set(u.dead_ops), set(u.dead_blocks), set(u.dead_regions), set(u.dead_vals))
                 tracer.mark_deaths(u, label, a)
             tracer.depth += 1
@@ -511,6 +523,54 @@ def traced_passes(ctx: Ctx, col, max_modules: int):
                     tracer.universe = None
                 runs += 1
                 events += cnt[0]
+        # the pipelines the corpus files were written for (their RUN lines), pass by pass: these actually rewrite the module
+        import contextlib
+        import io
+
+        from . import c17
+
+        idx = [(n, c, p) for (n, c, p) in c17.corpus_index(ctx.rng("own-pipelines-index"), None) if p and len(c) < 6000]
+        rng.shuffle(idx)
+        own = 0
+        for name, chunk, pipes in idx:
+            if own >= (max_modules * 3) // 2:
+                break
+            specs = [sp for sp in c17.parse_specs(rng.choice(pipes)) if sp.name in allp]
+            if not specs:
+                continue
+            m = c17.parse_input(chunk)
+            if m is None or sum(1 for _ in m.walk()) > 60:
+                continue
+            own += 1
+            xctx = c17.all_ctx()
+            u = Universe()
+            u.register_tree(m)
+            tracer.universe = u
+            cnt = [0]
+
+            def sink2(label: str, ok: bool, _u=u, _n=name, _cnt=cnt, _p="|".join(sp.name for sp in specs)):
+                _cnt[0] += 1
+                if ok and _cnt[0] <= 300:
+                    col.add(_u.project(), {"source": f"pipeline {_p} on {_n}", "event": label, "event_no": _cnt[0]})
+
+            tracer.sink = sink2
+            try:
+                with time_limit(60.0), contextlib.redirect_stdout(io.StringIO()), contextlib.redirect_stderr(io.StringIO()):
+                    for sp in specs:
+                        allp[sp.name]().from_pass_spec(sp).apply(xctx, m)
+            except Hang:
+                failed += 1
+                ctx.diverge("traced pipeline did not return within 60 s", module=name)
+            except BaseException as e:  # noqa: BLE001
+                if isinstance(e, (KeyboardInterrupt, SystemExit)):
+                    raise
+                failed += 1
+            finally:
+                tracer.sink = None
+                tracer.universe = None
+            runs += 1
+            events += cnt[0]
+        ctx.coverage["own_pipeline_runs_traced"] = own
     finally:
         tracer.uninstall()
     ctx.cov_add("traces_validated_against_impl", runs)
